@@ -1,7 +1,7 @@
 (* Property C06 -- reloads are precise and every one is reported exactly once.  Statements only. *)
 From Coq Require Import List String NArith ZArith Bool.
 From AM Require Import Rust.Ast Rust.Script Ref.RwCell Gen.Entry Ref.Load Ref.Sys Proofs.SysGrows Proofs.SysFrame
-  Proofs.SysStatic Proofs.SysReload Proofs.Dfs Proofs.RwPin Proofs.RwStep Tie.Entry Tie.CallGraph Gen.Deps Tie.Graph Gen.Paths Tie.Paths Proofs.SysGraph.
+  Proofs.SysStatic Proofs.SysReload Proofs.Dfs Proofs.RwPin Proofs.RwStep Tie.Entry Tie.CallGraph Gen.Deps Tie.Graph Gen.Paths Tie.Paths Proofs.SysGraph Gen.Records Tie.Records.
 Import ListNotations.
 Open Scope string_scope.
 
@@ -105,6 +105,20 @@ Theorem C06_nothing_recorded_never_reloaded : forall reloader ops order k,
   let s := drain (fst (run (init_st reloader) ops)) in
   legal_order s order = true -> deps_of (graph s) (DepAsset k) = [] -> ~ In k order.
 Proof. exact nothing_recorded_never_reloaded. Qed.
+
+(* what a load records is scoped to its own cache's reloader: the record remembers the reloader it
+   was started for, and every insertion (asset, file, directory) is guarded by it; no_record and the
+   drop guard as modelled (Tie/Records.v) *)
+Theorem C06_code_records_are_per_reloader :
+  record_wf record = true /\ no_record_wf no_record = true /\
+   guard_wf CellGuard_replace CellGuard_drop = true /\
+   add_record_wf add_record "insert_asset" = true /\
+   add_record_wf add_file_record "insert_file" = true /\
+   add_record_wf add_dir_record "insert_dir" = true /\
+   insert_checks_reloader Record_insert_asset = true /\
+   insert_checks_reloader Record_insert_file = true /\
+   insert_checks_reloader Record_insert_dir = true.
+Proof. exact records_shapes. Qed.
 
 (* the premises are met: an edited file, a notification, and the pass that reloads its asset *)
 Example C06_precision_nonvacuous :
